@@ -6,6 +6,7 @@ import (
 	"context"
 	"errors"
 	"fmt"
+	eth2v1 "github.com/attestantio/go-eth2-client/api/v1"
 	"net"
 	"os"
 	"strings"
@@ -32,13 +33,15 @@ const rule = "1-4 primaries and 0-3 fallbacks behind eth2wrap.Instrument; per no
 	"non-trivial = >=2 nodes with different outcome classes, or a hang, or fallbacks consulted; distinct by the outcome script"
 
 type outcome struct {
-	kind string // ok, err:<class>, hang_ctx, hang_hard
+	kind string // ok, notok (answers without error, but the answer says "not usable": a syncing node), err:<class>, hang_ctx, hang_hard
+	form string // how an error is wrapped: bare, wrapped (%w), joined (errors.Join, as the HTTP client library reports request errors)
 	lat  time.Duration
 }
 
 type node struct {
 	eth2wrap.Client // nil
 	name            string
+	id              int
 	out             outcome
 	stop            chan struct{}
 	mu              sync.Mutex
@@ -113,13 +116,28 @@ func (n *node) do(ctx context.Context) error {
 		return ctx.Err()
 	}
 	switch {
-	case n.out.kind == "ok":
+	case n.out.kind == "ok" || n.out.kind == "notok":
 		return nil
 	case n.out.kind == "hang_ctx":
 		<-ctx.Done()
 		return ctx.Err()
 	}
-	return makeErr(strings.TrimPrefix(n.out.kind, "err:"))
+	base := makeErr(strings.TrimPrefix(n.out.kind, "err:"))
+	switch n.out.form {
+	case "wrapped":
+		return fmt.Errorf("failed to request data from the node: %w", base)
+	case "joined":
+		return errors.Join(errors.New("failed to request data from the node"), base)
+	}
+	return base
+}
+
+// NodeSyncing is an endpoint with a success predicate: an answer that says "syncing" is an answer, not a success.
+func (n *node) NodeSyncing(ctx context.Context, _ *eth2api.NodeSyncingOpts) (*eth2api.Response[*eth2v1.SyncState], error) {
+	if err := n.do(ctx); err != nil {
+		return nil, err
+	}
+	return &eth2api.Response[*eth2v1.SyncState]{Data: &eth2v1.SyncState{IsSyncing: n.out.kind == "notok", HeadSlot: eth2p0.Slot(n.id)}}, nil
 }
 
 func (n *node) NodeVersion(ctx context.Context, _ *eth2api.NodeVersionOpts) (*eth2api.Response[string], error) {
@@ -160,16 +178,19 @@ func runCase(rt *rapid.T) {
 		for i := 0; i < count; i++ {
 			o := outcome{lat: time.Duration(rapid.IntRange(0, 40).Draw(rt, "latency")) * 50 * time.Millisecond}
 			switch k := rapid.IntRange(0, 9).Draw(rt, "outcome"); {
-			case k < 4:
+			case k < 3:
 				o.kind = "ok"
+			case k == 3:
+				o.kind = "notok"
 			case k < 8:
 				o.kind = "err:" + errClasses[rapid.IntRange(0, len(errClasses)-1).Draw(rt, "class")]
+				o.form = rapid.SampledFrom([]string{"bare", "bare", "wrapped", "joined"}).Draw(rt, "errorForm")
 			case k == 8:
 				o.kind = "hang_ctx"
 			default:
 				o.kind = "hang_hard"
 			}
-			n := &node{name: fmt.Sprintf("%s%d", prefix, i), out: o, stop: stop}
+			n := &node{name: fmt.Sprintf("%s%d", prefix, i), id: 1000 + len(allNodes), out: o, stop: stop}
 			// distinct latencies keep completion order well defined
 			n.out.lat += time.Duration(len(allNodes)) * time.Millisecond
 			cs, ns, allNodes = append(cs, n), append(ns, n), append(allNodes, n)
@@ -211,7 +232,15 @@ func runCase(rt *rapid.T) {
 		cl = cl.ClientForAddress(rapid.SampledFrom([]string{"", "nobody", "primary"}).Draw(rt, "scopeUnknown"))
 		scope = "unknown_address"
 	}
-	call := rapid.SampledFrom([]string{"NodeVersion", "AttestationData", "SubmitAttestations"}).Draw(rt, "call")
+	call := rapid.SampledFrom([]string{"NodeVersion", "AttestationData", "SubmitAttestations", "NodeSyncing"}).Draw(rt, "call")
+	if call != "NodeSyncing" {
+		// only that endpoint has a success predicate: elsewhere an answer is a success
+		for _, n := range allNodes {
+			if n.out.kind == "notok" {
+				n.out.kind = "ok"
+			}
+		}
+	}
 	cancelAt := time.Duration(-1)
 	if rapid.IntRange(0, 3).Draw(rt, "cancel?") == 0 {
 		cancelAt = time.Duration(rapid.IntRange(0, 45).Draw(rt, "cancelAt")) * 50 * time.Millisecond
@@ -226,14 +255,31 @@ func runCase(rt *rapid.T) {
 		case "NodeVersion":
 			resp, err := cl.NodeVersion(ctx, &eth2api.NodeVersionOpts{})
 			r.err = err
-			if err == nil {
+			if err == nil && resp == nil {
+				r.nilAnswer = true
+			} else if err == nil {
 				r.val = resp.Data
 			}
 		case "AttestationData":
 			resp, err := cl.AttestationData(ctx, &eth2api.AttestationDataOpts{})
 			r.err = err
-			if err == nil {
+			if err == nil && resp == nil {
+				r.nilAnswer = true
+			} else if err == nil {
 				r.val = strings.TrimRight(string(resp.Data.BeaconBlockRoot[:]), "\x00")
+			}
+		case "NodeSyncing":
+			resp, err := cl.NodeSyncing(ctx, &eth2api.NodeSyncingOpts{})
+			r.err = err
+			if err == nil && (resp == nil || resp.Data == nil) {
+				r.nilAnswer = true
+			} else if err == nil {
+				for _, n := range allNodes {
+					if eth2p0.Slot(n.id) == resp.Data.HeadSlot {
+						r.val = n.name
+					}
+				}
+				r.notok = resp.Data.IsSyncing
 			}
 		default:
 			r.err = cl.SubmitAttestations(ctx, &eth2api.SubmitAttestationsOpts{Attestations: []*eth2spec.VersionedAttestation{}})
@@ -312,15 +358,34 @@ func runCase(rt *rapid.T) {
 	okAt, haveOK := earliestOK(primaries, 0)
 	classes := map[string]bool{}
 	hang := false
+	formSeen := false
 	for _, n := range allNodes {
 		classes[n.out.kind] = true
 		if strings.HasPrefix(n.out.kind, "hang") {
 			hang = true
 		}
+		if n.out.form == "joined" || n.out.form == "wrapped" {
+			formSeen = true
+		}
 	}
 	fallbackCalled := calls(fallbacks) > 0
 	if calls(unused) > 0 {
 		rt.Fatalf("OUT OF SCOPE: a client scoped to one %s node's address also called other nodes (%s)", scope, desc)
+	}
+	if res != nil && res.err == nil && res.nilAnswer {
+		rt.Fatalf("NO ANSWER AND NO ERROR: the call returned a nil response with a nil error (%s)", desc)
+	}
+	if res != nil && res.err == nil && call == "NodeSyncing" {
+		// "returns exactly one node's answer": whatever is returned without error is what one configured node said
+		found := false
+		for _, n := range append(append([]*node{}, primaries...), fallbacks...) {
+			if n.name == res.val && ((n.out.kind == "ok" && !res.notok) || (n.out.kind == "notok" && res.notok)) {
+				found = true
+			}
+		}
+		if !found {
+			rt.Fatalf("WRONG VALUE: NodeSyncing returned (node %q, syncing=%v), which no configured node answered (%s)", res.val, res.notok, desc)
+		}
 	}
 	switch {
 	case haveOK && !cancelledBefore(okAt):
@@ -390,7 +455,7 @@ func runCase(rt *rapid.T) {
 		}
 	}
 	nontrivial := len(classes) >= 2 || hang || fallbackCalled
-	vstat.Case(desc, nontrivial, "call:"+call, "scope:"+scope, cls("primary_success", haveOK), cls("hang", hang), cls("fallback_consulted", fallbackCalled), cls("cancelled", cancelAt >= 0))
+	vstat.Case(desc, nontrivial, cls("answer_without_success(syncing)", classes["notok"]), cls("error_joined_or_wrapped", formSeen), "call:"+call, "scope:"+scope, cls("primary_success", haveOK), cls("hang", hang), cls("fallback_consulted", fallbackCalled), cls("cancelled", cancelAt >= 0))
 	if nontrivial && fallbackCalled && vstat.WantSample("fallback") {
 		vstat.Sample("fallback", map[string]any{"call": call, "primaries": script(primaries), "fallbacks": script(fallbacks), "cancel_at": cancelAt.String(), "returned_at": elapsedOf(res)})
 	} else if nontrivial && hang && vstat.WantSample("hang") {
@@ -408,10 +473,12 @@ func hangHard(ns []*node) bool {
 }
 
 type result struct {
-	val     string
-	body    string
-	err     error
-	elapsed time.Duration
+	nilAnswer bool // the call returned neither an error nor an answer
+	notok     bool // NodeSyncing: the answer returned says "syncing"
+	val       string
+	body      string
+	err       error
+	elapsed   time.Duration
 }
 
 func elapsedOf(r *result) string {
